@@ -308,3 +308,86 @@ def count_statements(stmts):
         elif k in ('for', 'func'):
             n += count_statements(s[4])
     return n
+
+
+# ---- token-level printing (C10): every boundary where white space is allowed is a potential continuation point ---------
+
+def _expr_tokens(e):
+    toks, _ = ge.print_tree(e, None, 0.0)
+    out = []
+    for t in toks:
+        if isinstance(t, tuple):
+            out.extend(t)          # call name and '(' may be separated by white space
+        else:
+            out.append(t)
+    return out
+
+
+def _line(indent, *parts):
+    """parts: tokens or lists of tokens, with 'REQ' markers where white space is mandatory. Returns (indent, [(gap, token)])."""
+    flat, req = [], False
+    for p in parts:
+        if p == 'REQ':
+            req = True
+            continue
+        for tok in (p if isinstance(p, list) else [p]):
+            if not flat:
+                gap = None
+            elif req or ge._needs_space(flat[-1][1], tok):  # pylint: disable=protected-access
+                gap = 'req'
+            else:
+                gap = 'opt'
+            flat.append((gap, tok))
+            req = False
+    return (indent, flat)
+
+
+def program_token_lines(stmts, depth=0, out=None):
+    if out is None:
+        out = []
+    ind = '    ' * depth
+    for s in stmts:
+        k = s[0]
+        if k == 'assign':
+            out.append(_line(ind, s[1], '=', _expr_tokens(s[2])))
+        elif k == 'expr':
+            out.append(_line(ind, _expr_tokens(s[1])))
+        elif k == 'if':
+            for i, (c, b) in enumerate(s[1]):
+                out.append(_line(ind, 'if' if i == 0 else 'elif', 'REQ', _expr_tokens(c), ':'))
+                program_token_lines(b, depth + 1, out)
+            if s[2] is not None:
+                out.append(_line(ind, 'else', ':'))
+                program_token_lines(s[2], depth + 1, out)
+            out.append(_line(ind, 'endif'))
+        elif k == 'while':
+            out.append(_line(ind, 'while', 'REQ', _expr_tokens(s[1]), ':'))
+            program_token_lines(s[2], depth + 1, out)
+            out.append(_line(ind, 'endwhile'))
+        elif k == 'for':
+            head = ['for', 'REQ', s[1]] + ([',', s[2]] if s[2] else []) + ['REQ', 'in', 'REQ']
+            out.append(_line(ind, *head, _expr_tokens(s[3]), ':'))
+            program_token_lines(s[4], depth + 1, out)
+            out.append(_line(ind, 'endfor'))
+        elif k in ('break', 'continue'):
+            out.append(_line(ind, k))
+        elif k == 'return':
+            if s[1] is None:
+                out.append(_line(ind, 'return'))
+            else:
+                out.append(_line(ind, 'return', 'REQ', _expr_tokens(s[1])))
+        elif k == 'func':
+            parts = ['function', 'REQ', s[1], '(']
+            for i, p in enumerate(s[2]):
+                if i:
+                    parts.append(',')
+                parts.append(p)
+            if s[3]:
+                parts.append('...')
+            parts += [')', ':']
+            out.append(_line(ind, *parts))
+            program_token_lines(s[4], depth + 1, out)
+            out.append(_line(ind, 'endfunction'))
+        else:
+            raise AssertionError(s)
+    return out
